@@ -28,7 +28,7 @@ ASSUMPTIONS = [
     'which descriptors a work\'s shutdown() closes is an input of the model (Shutdown.closes); that the real '
     'HttpProtocolHandler closes every socket it opened is established by the implementation-level oracle on the scenarios run',
     'a socket the proxy drops without close() (reverse proxy replacing its upstream) is closed by CPython reference counting',
-    'works raise Exception subclasses only; handle_events never suspends; --enable-conn-pool off; LocalFdExecutor',
+    'works raise Exception subclasses only; handle_events never suspends; --enable-conn-pool off; LocalFdExecutor in the model and its correspondence; the RemoteFdExecutor-only step (os.close of the raw descriptor received from the acceptor) is judged by the implementation-level oracle of the `remote` cases (real RemoteFdExecutor driven in-process, descriptor counts from /proc)',
     'ArriveOk (see C05) for the round-level theorems',
 ]
 EXHAUSTIVE = {}
@@ -46,7 +46,7 @@ def impl(case):
     if k == 'real':
         # refinement: the real handlers, recorded as abstract works, fed to the model (returns 'ok')
         return [S.refine_real(case)]
-    if k == 'repeat':
+    if k in ('repeat', 'remote'):
         return ['']
     raise ValueError(k)
 
@@ -60,6 +60,110 @@ def model_lines(case):
     if k == 'real':
         return ['exec 0 nop']
     return ['exec %d' % S.BASE]
+
+
+_REMOTE = {}
+
+
+def _remote_run(case):
+    """A real RemoteFdExecutor driven in-process the way receive_from_work_queue drives it after recv_handle():
+    work(fileno, addr, None) with a RAW descriptor the worker owns (a remote worker must os.close() it itself,
+    a local one never sees such a descriptor).  Returns (works left, growth of the process's descriptor count),
+    counted with the cycle collector off."""
+    import os
+    import gc
+    import socket
+    import asyncio
+    import selectors
+    import threading
+    import multiprocessing
+    import logging
+    logging.disable(logging.CRITICAL)
+    from proxy.common.flag import FlagParser
+    from proxy.core.work.fd.remote import RemoteFdExecutor
+    from proxy.http.handler import HttpProtocolHandler
+    import proxy.core.work.threadless as TL
+    if 'klass' not in _REMOTE:
+        class W(HttpProtocolHandler):
+            boom = False
+
+            def initialize(self):
+                if W.boom:
+                    raise RuntimeError('scripted initialize failure')
+                return super().initialize()
+        _REMOTE['klass'] = W
+        _REMOTE['flags'] = FlagParser.initialize(['--enable-web-server'], threadless=True, work_klass=W)
+    W = _REMOTE['klass']
+    real_event = TL.multiprocessing.Event
+    TL.multiprocessing.Event = threading.Event
+    try:
+        q1, q2 = multiprocessing.Pipe()
+        ex = RemoteFdExecutor('1', q1, _REMOTE['flags'])
+    finally:
+        TL.multiprocessing.Event = real_event
+    ex._loop = asyncio.new_event_loop()
+    ex.selector = selectors.DefaultSelector()
+    gc.collect()
+    gc.disable()
+    dead = None
+    try:
+        base = len(os.listdir('/proc/self/fd'))
+        peers = []
+        for i, (init, end) in enumerate(case['conns']):
+            a, b = socket.socketpair()
+            fileno = os.dup(a.fileno())
+            a.close()
+            b.setblocking(False)
+            W.boom = init == 'raise'
+            try:
+                ex.work(fileno, ('127.0.0.1', 1000 + i), None)
+            except Exception as e:      # noqa: BLE001
+                dead = e
+                break
+            finally:
+                W.boom = False
+            try:
+                if end == 'close':
+                    b.close()
+                elif end == 'garbage':
+                    b.send(b'\x00\x01garbage\r\n\r\n')
+                elif end == 'get':
+                    b.send(b'GET /nope HTTP/1.0\r\n\r\n')
+            except OSError:
+                pass
+            if end != 'close':
+                peers.append(b)
+            try:
+                for _ in range(case.get('iters', 4)):
+                    ex.loop.run_until_complete(ex._run_once())
+            except Exception as e:      # noqa: BLE001
+                dead = e
+                break
+        for b in peers:
+            b.close()
+        if dead is None:
+            try:
+                for _ in range(6):
+                    ex.loop.run_until_complete(ex._run_once())
+            except Exception as e:      # noqa: BLE001
+                dead = e
+        works = len(ex.works)
+        for wk in list(ex.works):       # leave nothing behind for the next case
+            try:
+                ex._cleanup(wk)
+            except Exception:           # noqa: BLE001
+                pass
+        after = len(os.listdir('/proc/self/fd'))
+    finally:
+        gc.enable()
+        try:
+            ex.selector.close()
+            ex._loop.close()
+            q1.close()
+            q2.close()
+        except Exception:               # noqa: BLE001
+            pass
+    return {'dead': dead, 'works': works, 'growth': after - base}
 
 
 def _hist_oracle(case):
@@ -100,6 +204,17 @@ def oracle(case):
         return None
     if k == 'hist':
         return _hist_oracle(case)
+    if k == 'remote':
+        r = _remote_run(case)
+        if r['dead'] is not None:
+            return 'remote-executor-raised-' + exc_name(r['dead'])
+        if r['works']:
+            return 'remote-executor-work-not-forgotten'
+        if r['growth'] > 0:
+            return 'remote-executor-descriptor-left-open'
+        if r['growth'] < 0:
+            return 'remote-executor-descriptor-closed-twice-or-foreign'
+        return None
     if k == 'repeat':
         r = S.run_repeat(case)
         if r['dead'] is not None:
@@ -174,6 +289,16 @@ def corpus():
     return cs
 
 
+def _remote_cases(rng, n):
+    inits = ['ok', 'ok', 'raise']
+    ends = ['close', 'garbage', 'get', 'idle']
+    out = [{'kind': 'remote', 'conns': [[i, e]] * k} for i in ('ok', 'raise') for e in ends for k in (1, 3)]
+    for _ in range(n):
+        out.append({'kind': 'remote', 'iters': rng.choice([1, 2, 4]),
+                    'conns': [[rng.choice(inits), rng.choice(ends)] for _k in range(rng.choice([2, 3, 5, 8]))]})
+    return out
+
+
 def generate(rng, tier):
     big = tier == 'thorough'
     for c in all_abort_cases():
@@ -187,6 +312,9 @@ def generate(rng, tier):
         yield S.gen_hist(rng, nrounds=rng.choice([4, 8, 8, 14]), adversarial=rng.choice([0.1, 0.3, 0.6]))
     for _ in range(100 if not big else 1500):
         yield S.gen_sel(rng, nops=rng.choice([12, 30, 50]))
+    # a remote executor owns the raw descriptor it was handed and has to close it, however the work ends
+    for c in _remote_cases(rng, 40 if not big else 600):
+        yield c
     for _ in range(500 if not big else 10000):
         yield S.gen_real(rng)
     # repetition: fd count stable
@@ -232,6 +360,8 @@ def search(rng):
 
 def describe(case):
     from harness import c05
+    if case['kind'] == 'remote':
+        return ['remote executor conns=%d' % len(case['conns'])] + sorted(set('remote init=%s' % c[0] for c in case['conns']))
     if case['kind'] == 'repeat':
         return ['repeat %s n=%d' % (case['conn']['role'], case['n'])]
     return c05.describe(case)
@@ -240,4 +370,4 @@ def describe(case):
 def nontrivial(case):
     if case['kind'] == 'hist':
         return any('~t~' in t or '~x~' in t or t.startswith('reap') or t == 'conn:1' for t in case['ops'])
-    return case['kind'] in ('real', 'repeat')
+    return case['kind'] in ('real', 'repeat', 'remote')
